@@ -151,11 +151,22 @@ pub fn check_case(p: &Prog, model_line: &str, report: &mut Report, _prop: &str) 
         match real_by_id.get(id) {
             Some(atoms) => {
                 if !includes(atoms, rt) {
-                    report.count(&format!("oracle_fail_class_{}", class.unwrap_or("none")));
-                    report.oracle_failure(json!({
+                    let key = format!("oracle_fail_class_{}", class.unwrap_or("none"));
+                    report.count(&key);
+                    let v = json!({
                         "input": input, "class": class,
                         "what": format!("probe {id} reached with a value of type {rt}, inferred type {} does not include it", atoms.join("|")),
-                    }));
+                    });
+                    if class.is_none() {
+                        // failures outside every known predicate must never be crowded out of the (capped) list
+                        report.oracle_failures.insert(0, v);
+                        report.oracle_failures.truncate(50);
+                        report.count("oracle_failures_total");
+                    } else if report.distribution.get(&key).copied().unwrap_or(0) <= 12 {
+                        report.oracle_failure(v);
+                    } else {
+                        report.count("oracle_failures_known_class_not_listed");
+                    }
                     break;
                 }
                 if atoms.len() == 1 && atoms[0] == "never" {
@@ -217,6 +228,46 @@ pub fn corpus() -> Vec<&'static str> {
     ]
 }
 
+/// thorough tier: every program `local v0 = d; S1; S2; p(v0)` with S from a small statement alphabet
+/// (assignments and one-level ifs over all guard kinds)
+pub fn exhaustive_small() -> Vec<Prog> {
+    use crate::prog::{Cond, Lit, Stmt};
+    let lits = [Lit::Nil, Lit::Int(1), Lit::Str(1), Lit::Bool(false)];
+    let conds = vec![
+        Cond::Truthy(0),
+        Cond::Not(Box::new(Cond::Truthy(0))),
+        Cond::TypeIs(0, 2, false, false),
+        Cond::TypeIs(0, 3, true, false),
+        Cond::IsNil(0, false, false),
+        Cond::IsNil(0, true, false),
+    ];
+    let mut stmts: Vec<Stmt> = lits.iter().map(|l| Stmt::Assign(0, l.clone())).collect();
+    for c in &conds {
+        for t in 0..lits.len() {
+            // else: none, empty, or one of the assignments
+            stmts.push(Stmt::If(c.clone(), vec![Stmt::Assign(0, lits[t].clone()), Stmt::Probe(0)], vec![], None));
+            for e in 0..lits.len() {
+                stmts.push(Stmt::If(
+                    c.clone(),
+                    vec![Stmt::Assign(0, lits[t].clone())],
+                    vec![],
+                    Some(vec![Stmt::Probe(0), Stmt::Assign(0, lits[e].clone())]),
+                ));
+            }
+        }
+        stmts.push(Stmt::If(c.clone(), vec![Stmt::Probe(0)], vec![], Some(vec![])));
+    }
+    let mut out = Vec::new();
+    for d in [Lit::Nil, Lit::Int(2), Lit::Bool(true)] {
+        for a in &stmts {
+            for b in &stmts {
+                out.push(Prog { decls: vec![Some(d.clone())], body: vec![a.clone(), b.clone(), Stmt::Probe(0)] });
+            }
+        }
+    }
+    out
+}
+
 pub fn run(args: &Args, report: &mut Report) {
     report.rule = "distinct program (token stream) that has at least one if/loop, reaches at least one probe in the VM, and has a probe whose inferred type is a union, a literal type, never or unknown (i.e. narrowing or assignment flow is exercised)".into();
     let mut seen = HashSet::new();
@@ -229,8 +280,16 @@ pub fn run(args: &Args, report: &mut Report) {
     }
     let corpus: Vec<Prog> = corpus().iter().map(|t| prog::parse_tokens(t).expect("corpus parses")).collect();
     run_batch(&corpus, report, &mut seen, &args.prop);
+    if args.thorough() {
+        let all = exhaustive_small();
+        report.add("exhaustive_small_programs", all.len() as u64);
+        for chunk in all.chunks(2000) {
+            run_batch(chunk, report, &mut seen, &args.prop);
+        }
+        report.notes.push("thorough: exhaustive scope `local v0 = d; S1; S2; p(v0)`, d ∈ {nil,2,true}, S ∈ 4 assignments + 6 guards × (then-assign × {no else, 4 else-assigns}) + empty-else forms".into());
+    }
     let mut rng = Rng::new(args.seed);
-    let n = if args.thorough() { 60_000 } else { 2_500 };
+    let n = if args.thorough() { 200_000 } else { 2_500 };
     let mut batch = Vec::new();
     for i in 0..n {
         let cfg = match i % 4 {
